@@ -30,7 +30,10 @@ package utils
 //@   site call UnmarshalWithParams OTHERNAME: [C20] requires arg0 == value.FullBytes && value.Tag == 0 && arg2 == "tag:0"
 //@   site call Unmarshal@2 NAMEVALUE: [C20] requires arg0 == on.Value.Bytes && asn1.OIDEqual(on.ID, OIDReceptorName)
 //@   ghostflag valuedecoded set call:Unmarshal clear call:UnmarshalWithParams
-//@   site call append DECODED: [C20] requires len(arg1) == 1 && arg1[0] == name && flag("valuedecoded")
+// DECODED names no local on purpose: a condition that cannot be evaluated any more is reported undecided, and the part
+// that carries the property (the value was decoded after this entry was parsed) must survive the removal of a variable
+//@   site call append DECODED: [C20] requires len(arg1) == 1 && flag("valuedecoded")
+//@   site call append THENAME: [C20] requires arg1[0] == name
 //@   site call append AFTERDECODE: [C20] requires err == nil
 //@   site call append RECEPTOROID: [C20] requires asn1.OIDEqual(on.ID, OIDReceptorName)
 //@   ensures NOPARTIAL: [C20] result.1 != nil ==> result.0 == nil
